@@ -526,7 +526,7 @@ def perturb_stream(rng, events):
     ev = copy.deepcopy(events)
     if len(ev) < 3:
         return "none", ev
-    kind = rng.choice(["drop", "dup", "swap", "rethread", "truncate", "move_late"])
+    kind = rng.choice(["drop", "dup", "swap", "rethread", "truncate", "move_late", "rerank", "rerank"])
     i = rng.randrange(1, len(ev))
     if kind == "drop":
         del ev[i]
@@ -539,6 +539,11 @@ def perturb_stream(rng, events):
         if cands:
             j = rng.choice(cands)
             ev[j][3] = 2
+    elif kind == "rerank":
+        # the writer copies node.rank at Start time and the accessors sort children by it (stable)
+        for e in ev:
+            if e[0] in ("suite_start", "test_start", "test_skipped", "test_disabled"):
+                e[1]["rank"] = rng.choice([0, 0, 1, 2, 3, 7])
     elif kind == "truncate":
         ev = ev[:i]
     elif kind == "move_late":
@@ -621,7 +626,16 @@ Definition rel_writer (c : rcase) : bool :=
 Definition rel_grammar (c : rcase) : bool :=
   match c with (r, evs, e, _, _, g) => Bool.eqb (sequential_ok replay_mode evs) g end.
 Definition rel_hyp (c : rcase) : bool := match c with (r, _, _, _, h, _) => Bool.eqb (replayable r) h end.
-Definition agrees (c : rcase) : bool := rel_replay c && rel_writer c && rel_grammar c && rel_hyp c.
+(* a finished replayable report (End everywhere): the recorded stream must also satisfy the grammar with every bracket closed *)
+Definition all_ended (r : report) : bool :=
+  let res_f (x : result) := match r_status x with Some _ => forallb (fun s => match st_end s with Some _ => true | None => false end) (r_steps x) | None => false end in
+  let ores_f (o : option result) := match o with Some x => res_f x | None => true end in
+  match rp_end r with Some _ => true | None => false end && ores_f (rp_session_setup r) && ores_f (rp_session_teardown r)
+  && forallb (fun s => match s_end_of s with Some _ => true | None => false end && ores_f (s_setup_of s) && ores_f (s_teardown_of s)
+                       && forallb (fun t => res_f (t_result t)) (s_tests_of s)) (flatten_suites (rp_suites r)).
+Definition rel_strict (c : rcase) : bool :=
+  match c with (r, evs, _, _, _, _) => negb (replayable r && all_ended r) || stream_ok (mkMode false true) evs end.
+Definition agrees (c : rcase) : bool := rel_replay c && rel_writer c && rel_grammar c && rel_hyp c && rel_strict c.
 (* a writer case: a stream and what the real ReportWriter did with it *)
 Definition wcase := (list event * res report)%%type.
 Definition unmodelled (c : wcase) : bool := match aggregate (fst c) with Err Unmodelled => true | _ => false end.
@@ -650,7 +664,7 @@ def rfile(cases):
 
 def rfile_detail(case):
     return HEADER + "Definition c : rcase := %s.\n" % c_rcase(case) + \
-        "Eval vm_compute in (find_indexes (fun b : bool => negb b) [rel_replay c; rel_writer c; rel_grammar c; rel_hyp c]).\n"
+        "Eval vm_compute in (find_indexes (fun b : bool => negb b) [rel_replay c; rel_writer c; rel_grammar c; rel_hyp c; rel_strict c]).\n"
 
 
 def wfile(cases):
@@ -676,7 +690,8 @@ def parse_first(out):
 
 
 RELS = ["Replay.replay_report_events = recorded stream and exception", "Writer.aggregate(recorded stream) = rebuilt report",
-        "StreamOk.sequential_ok(recorded stream) = python bracket check", "Replay.replayable = python hypothesis"]
+        "StreamOk.sequential_ok(recorded stream) = python bracket check", "Replay.replayable = python hypothesis",
+        "StreamOk.stream_ok in finished mode accepts the recorded stream of a finished replayable report"]
 
 
 # ----------------------------------------------------------------------------- the check
